@@ -22,6 +22,9 @@ pub enum Body {
     EchoVar,
     /// Copy only: `mapfile -t m; printf '%s\n' "${m[@]}"`
     Mapfile,
+    /// Copy only: `echo "$(simcat 64)"` — the stage's input is read by a command substitution
+    /// in the words of a simple command
+    SubstCat,
     /// Emit only, joined to the next stage with `|&`: every line is followed by a line on
     /// standard error
     LoopBoth,
@@ -162,6 +165,8 @@ fn render_inner(st: &Stage, idx: usize) -> String {
             format!("mapfile -t m{idx}; if [ ${{#m{idx}[@]}} -gt 0 ]; then printf '%s\\n' \"${{m{idx}[@]}}\"; fi")
         }
         (Role::Copy { buf }, Body::Printf | Body::EchoVar | Body::LoopBoth) => format!("simcat {buf}"),
+        (Role::Copy { buf }, Body::SubstCat) => format!("echo \"$(simcat {buf})\""),
+        (Role::Emit { n, tag, pad }, Body::SubstCat) => format!("simseq {n} {tag} {pad}"),
         (Role::Emit { n, tag, pad }, Body::Loop) => {
             let padstr = "x".repeat(*pad as usize);
             format!("i{idx}=0; while [ $i{idx} -lt {n} ]; do i{idx}=$((i{idx}+1)); echo \"{tag}${{i{idx}}}{padstr}\"; done")
@@ -170,7 +175,7 @@ fn render_inner(st: &Stage, idx: usize) -> String {
         (Role::Copy { buf }, Body::Builtin) => format!("simcat {buf}"),
         (Role::Copy { .. }, Body::Loop) => format!("while IFS= read -r {v}; do echo \"${v}\"; done"),
         (Role::Tag { prefix }, _) => format!("while IFS= read -r {v}; do echo \"{prefix}${v}\"; done"),
-        (Role::Head { k, buf }, Body::Builtin | Body::Printf | Body::EchoVar | Body::Mapfile | Body::LoopBoth) => format!("simhead {k} {buf}"),
+        (Role::Head { k, buf }, Body::Builtin | Body::Printf | Body::EchoVar | Body::Mapfile | Body::LoopBoth | Body::SubstCat) => format!("simhead {k} {buf}"),
         (Role::Head { k, .. }, Body::Loop) => format!(
             "n{idx}=0; while IFS= read -r {v}; do echo \"${v}\"; n{idx}=$((n{idx}+1)); if [ $n{idx} -ge {k} ]; then break; fi; done"
         ),
@@ -213,9 +218,9 @@ fn is_compound_text(st: &Stage) -> bool {
     !matches!(
         (&st.role, &st.body),
         (Role::Emit { .. }, Body::Builtin | Body::External | Body::Printf)
-            | (Role::Copy { .. }, Body::Builtin | Body::External | Body::Printf | Body::EchoVar | Body::LoopBoth)
-            | (Role::Head { .. }, Body::Builtin | Body::External | Body::Printf | Body::EchoVar | Body::Mapfile | Body::LoopBoth)
-            | (Role::Emit { .. }, Body::Mapfile)
+            | (Role::Copy { .. }, Body::Builtin | Body::External | Body::Printf | Body::EchoVar | Body::LoopBoth | Body::SubstCat)
+            | (Role::Head { .. }, Body::Builtin | Body::External | Body::Printf | Body::EchoVar | Body::Mapfile | Body::LoopBoth | Body::SubstCat)
+            | (Role::Emit { .. }, Body::Mapfile | Body::SubstCat)
             | (Role::Exit { .. }, _)
     )
 }
@@ -363,7 +368,12 @@ pub fn model(case: &Case) -> Model {
                 lines = vec![];
                 allowed.push(vec![0]);
             }
-            Role::Copy { .. } => allowed.push(vec![0]),
+            Role::Copy { .. } => {
+                if st.body == Body::SubstCat && lines.is_empty() && !endless_input {
+                    lines = vec![String::new()];
+                }
+                allowed.push(vec![0]);
+            }
             Role::Tag { prefix } => {
                 lines = lines.iter().map(|l| format!("{prefix}{l}")).collect();
                 allowed.push(vec![0]);
@@ -673,7 +683,15 @@ impl C11 {
                     _ => Role::Copy { buf: 64 },
                 },
             };
-            let body = if matches!(role, Role::Copy { .. }) && class != "real-size" && class != "builtin-big" && class != "external-big" && rng.below(6) == 0 { Body::Mapfile } else { body };
+            let body = if matches!(role, Role::Copy { .. }) && class != "real-size" && class != "builtin-big" && class != "external-big" && class != "forever" {
+                match rng.below(8) {
+                    0 => Body::Mapfile,
+                    1 => Body::SubstCat,
+                    _ => body,
+                }
+            } else {
+                body
+            };
             stages.push(Stage { body, wrapper, role });
         }
         // ReadThenCopy needs a compound wrapper
